@@ -311,6 +311,44 @@ pub fn run(tier: Tier) -> i32 {
         check_case(&ctx, &cfg, &ops_of(p, &dr));
     });
     ctx.count("names_default_vector_ring_backend", all.len() as u64);
+    // part 1c: the same set of psk modifiers spelled in another order is another protocol name (the name is
+    // hashed verbatim): every base pattern x every psk subset of size >= 2 x {reversed, rotated, one adjacent
+    // swap} on a rotating suite, both transport modes
+    {
+        let suites = patterns::all_suites();
+        let mut perm: Vec<Proto> = vec![];
+        let mut k = 0usize;
+        for b in patterns::base_patterns() {
+            for ps in patterns::psk_subsets(b.msgs.len()).into_iter().filter(|ps| ps.len() >= 2) {
+                let mut orders: Vec<Vec<u8>> = vec![ps.iter().rev().copied().collect()];
+                let mut rot = ps.clone();
+                rot.rotate_left(1);
+                orders.push(rot);
+                for j in 0..ps.len() - 1 {
+                    let mut sw = ps.clone();
+                    sw.swap(j, j + 1);
+                    orders.push(sw);
+                }
+                orders.sort();
+                orders.dedup();
+                for o in orders {
+                    let (dh, c, h) = suites[k % suites.len()];
+                    k += 1;
+                    perm.push(Proto::new(&b, &o, dh, c, h).unwrap());
+                }
+            }
+        }
+        let perm: Vec<Proto> = if ctx.quick() { perm.into_iter().step_by(3).collect() } else { perm };
+        ctx.count("names_with_reordered_modifiers", perm.len() as u64);
+        perm.par_iter().enumerate().for_each(|(j, p)| {
+            let mut v = default_var();
+            if j % 2 == 1 {
+                v.mode = Mode::ST;
+            }
+            let cfg = cfg_of(p, &v, if j % 4 >= 2 { Backend::Ring } else { Backend::Default });
+            check_case(&ctx, &cfg, &ops_of(p, &v));
+        });
+    }
     // part 2: bound-1 input variations
     let suites: Vec<Proto> = if ctx.quick() {
         // NAMES/suite on 25519/ChaChaPoly/SHA256 + NAMES/hs38 on every suite
